@@ -39,7 +39,6 @@ type History struct {
 	Calls   []Call            `json:"calls"`
 	Natives map[string][]GoOp `json:"natives,omitempty"`
 	NoProbe bool              `json:"noprobe,omitempty"`
-	NoGrow  bool              `json:"nogrow,omitempty"`
 }
 
 type env struct {
@@ -192,23 +191,11 @@ func setup(h *History) *env {
 			return goja.Undefined()
 		})
 	}
-	pre := probePrelude + h.Prelude
-	if !h.NoGrow {
-		pre = pregrow + pre
-	}
-	if _, err := r.RunScript("prelude.js", pre); err != nil {
+	if _, err := r.RunScript("prelude.js", probePrelude+h.Prelude); err != nil {
 		panic(fmt.Sprintf("harness: prelude failed: %v", err))
 	}
 	return e
 }
-
-// pregrow: a chain of 70 nested try statements grows the capacity of vm.tryStack once, so that no
-// append inside handleThrow→restoreStacks reallocates the slice during the histories.  Without it the
-// known defect "defect:tf-alias" (handleThrow keeps a pointer into vm.tryStack across restoreStacks; see
-// design/C03.md) makes outcomes depend on the slice capacity.  The defect itself is checked by dedicated
-// corpus entries run with "nogrow".
-const pregrow = `(function n(d){ try { if (d) n(d-1) } finally {} })(70);
-`
 
 const probePrelude = `
 function PB(){ var log=[];
